@@ -43,6 +43,7 @@ CODE_LIMIT = ("Loop body too large.", "Too many constants in one chunk.", "Too m
 MSG_RE = re.compile(r'\A\[module "main", line (\d+)\] Error( at end| at \'.*\')?: .+\Z', re.S)
 CASE_MS = 2000
 REDO_MAX = 120
+REDO_BIG_MAX = 400
 SCALE = float(os.environ.get("C03_SCALE", "1"))     # developer option: scales the random families (mutation runs)
 
 # canonical lexeme of every token kind, in the order of enum TokenKind (Error: an unexpected character, Eof: cut)
@@ -454,6 +455,81 @@ def code_size_inputs():
 
 
 # ---------------------------------------------------------------------------------------------------------
+# the scanner's byte positions: every character width at every offset after every scanner state
+
+MB = ["é", "ॐ", "🙂"]                                   # 2-, 3- and 4-byte characters
+SIG_GEN = ["4", "g", '"'] + MB                          # after an operator / keyword / number / comment stem
+SIG_STR = ["4", "a", "g", "+", '"', "$", "{", "\\", "\n"] + MB     # inside a string literal
+SIG_STR3 = ["4", "g", '"'] + MB                         # the alphabet of the length-3 continuations (quick)
+
+
+def _words(sig, n):
+    res = [""]
+    out = []
+    for _ in range(n):
+        res = [w + c for w in res for c in sig]
+        out += res
+    return out
+
+
+def scanner_stems():
+    """-> (generic stems, string stems): one text per scanner state that looks at the NEXT character(s):
+    every non-empty prefix of every lexeme of the 72 token kinds (operators, keywords, literals), numbers with and
+    without a fraction, comments, whitespace; and - after an opening quote - every state of `string()` /
+    `read_escaped_bytes()`: plain, after a backslash, after the x / u / U escape introducers and 0..7 hex digits, after `$`, `${`, after the `}`
+    that resumes a string, after a multi-byte character, on a later line"""
+    gen = []
+
+    def add(x):
+        if x and x not in gen:
+            gen.append(x)
+    for l in LEX:
+        if l and not l.startswith('"'):
+            for k in range(1, len(l) + 1):
+                add(l[:k])
+    for x in ["1.", "1.5", "12", "/", "//", "// c", "#[", "_", "x1", "Se", "tr", "tru", " ", "\n", "\r", "\t", "é", "🙂", "x.", "x =", "(", "|x|"]:
+        add(x)
+    hexd = "0001f642"
+    st = ["", "a", "é", "🙂", "\\", "\\n", "$", "${", "${x}", "a${x}b", "a\nb", "\\$", "\\\\"]
+    for e, n in (("x", 2), ("u", 4), ("U", 8)):
+        for k in range(n):
+            st.append("\\" + e + hexd[8 - n:8 - n + k])
+    st += ["\\xg", "\\x+", "\\u00e9\\x", "é\\x", "${x}\\x", "${x}\\u00", "a\n\\U0001f6", "\\x41\\x", "\\xe9\\u"]
+    return gen, st
+
+
+def scanner_boundary_inputs(quick):
+    """SMALL-SCOPE ENUMERATION of the scanner's look-ahead: after every stem, EVERY word up to length 2 (string states:
+    3) over an alphabet with one representative per class the scanner distinguishes - hex digit, hex letter that is
+    also an escape, other letter, `+` (accepted by from_str_radix), quote, `$`, `{`, backslash, newline - and per UTF-8
+    width (2, 3, 4 bytes), followed by the end of the text or by a closing tail.  No random choice."""
+    gstems, sstems = scanner_stems()
+    cases = []
+    gw = _words(SIG_GEN, 2)
+    for stem in gstems:
+        for w in gw:
+            for tail in ("", " 1;"):
+                cases.append(("scanbyte:gen:%s" % stem.strip()[:8], stem + w + tail))
+    sw = _words(SIG_STR, 2) + ([x for x in _words(SIG_STR3, 3) if len(x) == 3] if quick else [x for x in _words(SIG_STR, 3) if len(x) == 3])
+    sw2 = _words(SIG_STR, 2)
+    for stem in sstems:
+        for w in sw:
+            for tail in ("", '";'):
+                cases.append(("scanbyte:str:%s" % stem[:8], '"' + stem + w + tail))
+        # the same states inside other contexts: after tokens on an earlier line, and in a string nested in an interpolation
+        for w in sw2:
+            cases.append(("scanbyte:strctx:%s" % stem[:8], 'var s =\n "' + stem + w + '";'))
+            cases.append(("scanbyte:strnest:%s" % stem[:8], '"p${ "' + stem + w + '" }q";'))
+    seen = set()
+    out = []
+    for f, t in cases:
+        if t not in seen:
+            seen.add(t)
+            out.append((f, t))
+    return out
+
+
+# ---------------------------------------------------------------------------------------------------------
 # implementation side
 
 class Impl:
@@ -512,8 +588,23 @@ def run_impl(binary, srcs, opts="-", batch=40):
     if cur:
         chunks.append(cur)
     lines = ["c03 %s %s" % (opts, " ".join(hx(srcs[i]) for i in c)) for c in chunks]
-    recs = yvlib.run_harness(binary, lines, case_timeout_ms=CASE_MS if batch == 1 else CASE_MS + 50 * batch)
     out = [None] * len(srcs)
+    if batch > 40:
+        # the enumerated families: large batches in waves; when batches keep failing (a compiler that hangs or aborts on
+        # a large part of the enumeration) the remaining waves are not run - the re-runs below give the failing texts
+        recs, failed = [], 0
+        for w in range(0, len(lines), 32):
+            part = yvlib.run_harness(binary, lines[w:w + 32], case_timeout_ms=CASE_MS + 20 * batch)
+            failed += sum(1 for c, r in zip(chunks[w:w + 32], part) if _parse_batch(r, len(c)) is None)
+            recs.extend(part)
+            if failed >= 8:
+                break
+        for c in chunks[len(recs):]:
+            for i in c:
+                out[i] = Impl("skipped")
+        chunks = chunks[:len(recs)]
+    else:
+        recs = yvlib.run_harness(binary, lines, case_timeout_ms=CASE_MS if batch == 1 else CASE_MS + 50 * batch)
     redo = []
     for c, r in zip(chunks, recs):
         p = _parse_batch(r, len(c))
@@ -525,6 +616,16 @@ def run_impl(binary, srcs, opts="-", batch=40):
         else:
             for i, im in zip(c, p):
                 out[i] = im
+    if redo and batch > 40:
+        # a failing LARGE batch (the enumerated families) is first re-run in small batches, which re-run text by text;
+        # bounded: a compiler that hangs on a large part of the enumeration must cost a minute, not an hour
+        for i in redo[REDO_BIG_MAX:]:
+            out[i] = Impl("skipped")
+        redo = redo[:REDO_BIG_MAX]
+        sub = run_impl(binary, [srcs[i] for i in redo], opts, batch=20)
+        for i, im in zip(redo, sub):
+            out[i] = im
+        redo = []
     if redo:
         # a failing batch is re-run text by text; bounded, so that a compiler that hangs on most inputs costs minutes, not hours
         for i in redo[REDO_MAX:]:
@@ -533,19 +634,28 @@ def run_impl(binary, srcs, opts="-", batch=40):
         sub = run_impl(binary, [srcs[i] for i in redo], opts, batch=1)
         for i, im in zip(redo, sub):
             out[i] = im
-    # a timeout is confirmed by a second run of the text alone (machine load must not produce an alarm)
-    tmo = [i for i, im in enumerate(out) if im.kind == "timeout"]
-    if tmo and batch == 1:
-        first = tmo[:10]
-        again = yvlib.run_harness(binary, ["c03 %s %s" % (opts, hx(srcs[i])) for i in first], case_timeout_ms=CASE_MS, shards=4)
-        refuted = 0
-        for i, r in zip(first, again):
-            p = _parse_batch(r, 1)
-            if p is not None:
-                out[i] = p[0]
-                refuted += 1
-        if refuted == len(first):
-            for i in tmo[10:]:
+    # a timeout or a process crash is believed only when it REPRODUCES: the text is re-run alone, twice (machine load,
+    # a harness binary being relinked by a concurrent build, a failed 256 MiB stack allocation must not produce an
+    # alarm; a genuine hang / abort is deterministic and survives both re-runs)
+    sus = [i for i, im in enumerate(out) if im.kind in ("timeout", "crash")]
+    if sus and batch == 1:
+        first = sus[:10]
+        pending = list(first)
+        for _attempt in range(2):
+            if not pending:
+                break
+            again = yvlib.run_harness(binary, ["c03 %s %s" % (opts, hx(srcs[i])) for i in pending], case_timeout_ms=CASE_MS, shards=4)
+            still = []
+            for i, r in zip(pending, again):
+                p = _parse_batch(r, 1)
+                if p is not None:
+                    out[i] = p[0]
+                else:
+                    still.append(i)
+            pending = still
+        if not pending:
+            # none of the first ten reproduced: the rest are not judged rather than believed
+            for i in sus[10:]:
                 out[i] = Impl("skipped")
     return out
 
@@ -646,7 +756,7 @@ def judge(ctx, tag, src, im, mo, st, model_applies=True):
                                    actual=im.msgs[:5], family=tag, cls="shape"))
             return
     if not model_applies:
-        st["codesize"] += 1
+        st[st.get("implonly_key", "codesize")] += 1
         return
     if mo is None:
         st["model_failed"] += 1
@@ -682,22 +792,22 @@ def judge(ctx, tag, src, im, mo, st, model_applies=True):
 
 def new_stats():
     return {"viol": [], "corr": [], "fuel": 0, "fuel_samples": [], "codesize": 0, "model_failed": 0, "agree_ok": 0, "agree_err": 0,
-            "accepted": set(), "errclasses": set(), "attr_nondet": 0, "recovered": 0, "skipped": 0}
+            "accepted": set(), "errclasses": set(), "attr_nondet": 0, "recovered": 0, "skipped": 0, "scanbyte_implonly": 0}
 
 
-def check_texts(ctx, cases, st, tag, debug_subset=None, model_applies=True):
+def check_texts(ctx, cases, st, tag, debug_subset=None, model_applies=True, batch=40):
     """cases: [(family, text)].  Release build for all, debug build for `debug_subset` indices."""
     srcs = [s for _, s in cases]
     rel = ctx.harness("release")
     big = any(len(s) > 20000 for s in srcs)
-    impl = run_impl(rel, srcs, batch=1 if big else 40)
+    impl = run_impl(rel, srcs, batch=1 if big else batch)
     model = run_model(srcs, tag) if model_applies else [None] * len(srcs)
     for (fam, s), im, mo in zip(cases, impl, model):
         judge(ctx, fam, s, im, mo, st, model_applies)
-    if debug_subset:
+    if debug_subset and len(st["viol"]) < 5:
         dbg = ctx.harness("debug")
         sub = [cases[i] for i in debug_subset]
-        dimpl = run_impl(dbg, [s for _, s in sub], batch=1 if big else 25)
+        dimpl = run_impl(dbg, [s for _, s in sub], batch=1 if big else (25 if batch == 40 else batch))
         for (fam, s), im, i in zip(sub, dimpl, debug_subset):
             r = impl[i]
             if im.kind in ("timeout", "skipped"):
@@ -829,6 +939,52 @@ def classify(ctx, src):
     return st
 
 
+MB_TEMPLATES = [
+    "%s;", "var s = %s;", "print(%s);", "import %s;", "import %s as m;", "import %s as", "#[%s] fn f() {}", "#[a(%s)] fn f() {}",
+    "class %s {}", "class C { fn %s(self) {} }", "fn %s() {}", "fn f(%s) {}", "var %s;", "var x = y.%s;", "var m = {%s: 1};",
+    "var m = {1: %s};", "f(%s, %s);", "%s.len();", "%s(1);", "%s[0];", "var v = [%s, %s];", "for %s in x {}", "for i in %s {}",
+    "try {} catch %s {}", "throw %s;", "return %s;", "x = %s + %s;", "x += %s;", "if %s {}", "while %s { break; }", "|%s| 1;",
+    "var t = (%s, 1);", "#[derive(%s)] class D {}", "#[constructor(%s)] class D {}", "super.%s;", "self.%s = 1;", "-%s;", "%s %s;",
+    "%s = 1;", "%s", "%s +", "var x = 1; // %s\nvar y = %s;",
+]
+
+
+def multibyte_token_inputs():
+    """a string / interpolation token (and a stray multi-byte character) whose text is non-ASCII in every syntactic
+    position - legal or not: whatever the parser does with a token's text (messages `Error at '...'`, constants, import
+    paths, names) sees characters of every width; judged by the full oracle (first message = the model's)"""
+    toks = ['"é"', '"ॐa"', '"a🙂"', '"é${x}ॐ"', '"${"🙂"}"', '"\\u00e9é"', "é", "🙂x", '"é', '"a\nॐ"']
+    res = []
+    for tpl in MB_TEMPLATES:
+        for t in toks:
+            res.append(("mbtoken:%s" % tpl[:12].strip(), tpl.replace("%s", t)))
+    return res
+
+
+def scanner_family(ctx, st, quick):
+    """the enumerated scanner-position texts: ALL on both builds, judged on (T),(P),(E) and debug = release; a sample
+    (from ctx.rng) through the model as well ((F),(A): acceptance and first message)"""
+    sb = scanner_boundary_inputs(quick)
+    st["implonly_key"] = "scanbyte_implonly"
+    try:
+        check_texts(ctx, sb, st, "scanbyte", debug_subset=list(range(len(sb))), model_applies=False, batch=400)
+    finally:
+        st.pop("implonly_key", None)
+    st["scanbyte"] = len(sb)
+    st["scanbyte_modelled"] = 0
+    if len(st["viol"]) < 5:
+        n = min(len(sb), max(1, int((3000 if quick else 12000) * SCALE)))
+        sample = ctx.rng.sample(sb, n)
+        before = st["agree_ok"] + st["agree_err"]
+        check_texts(ctx, sample, st, "scanbytem", batch=400)
+        mbt = multibyte_token_inputs()
+        check_texts(ctx, mbt, st, "mbtoken", debug_subset=list(range(len(mbt))), batch=100)
+        st["scanbyte_modelled"] = n + len(mbt)
+        st["scanbyte"] += len(mbt)
+        st["scanbyte_agree"] = st["agree_ok"] + st["agree_err"] - before
+    return len(sb)
+
+
 def build_cases(ctx):
     rng = ctx.rng
     quick = ctx.quick()
@@ -886,9 +1042,14 @@ def run(ctx):
     dbg = sorted(rng.sample(range(len(uniq)), min(len(uniq), 400 if quick else 3000)))
     log("[C03] %d texts (%d distinct), families %s" % (len(cases), len(uniq), dist))
     t0 = time.time()
+    scanner_family(ctx, st, quick)
+    log("[C03] scanner-position family judged in %.0fs (%d violations)" % (time.time() - t0, len(st["viol"])))
     SL = 2500
     dbgset = set(dbg)
     for a in range(0, len(uniq), SL):
+        if len(st["viol"]) >= 5:
+            ctx.notes.append("the %d random / corpus texts were not judged: %d violations found by the directed families" % (len(uniq), len(st["viol"])))
+            break
         part = uniq[a:a + SL]
         check_texts(ctx, part, st, "main%d" % (a // SL), debug_subset=[i - a for i in range(a, a + len(part)) if i in dbgset])
         if len(st["viol"]) >= 5:
@@ -931,6 +1092,13 @@ def run(ctx):
     run_timeouts = 0
     for s, r in zip(sample, runs):
         p = _parse_batch(r, 1)
+        if p is None and r.crashed != "timeout":
+            # a crash is believed only when it reproduces twice with the text alone (see run_impl)
+            for _attempt in range(2):
+                r = yvlib.run_harness(rel, ["c03 run=1 " + hx(s)], case_timeout_ms=CASE_MS, shards=1)[0]
+                p = _parse_batch(r, 1)
+                if p is not None or r.crashed == "timeout":
+                    break
         if p is None:
             if r.crashed == "timeout":
                 run_timeouts += 1
@@ -942,7 +1110,7 @@ def run(ctx):
                                    actual=p[0].detail, family="run", cls="runpanic"))
     nshapes, discr, nprogs = operator_pairs(ctx, st, VALUE_SETS[:2] if quick else VALUE_SETS)
     log("[C03] run sample and operator pairs done at %.0fs" % (time.time() - t0))
-    finish(ctx, st, uniq, lad, lim, cs, dist, corpus_texts, len(sample), run_timeouts, nshapes, discr, nprogs, len(dbg) + len(lad) + len(lim))
+    finish(ctx, st, uniq, lad, lim, cs, dist, corpus_texts, len(sample), run_timeouts, nshapes, discr, nprogs, len(dbg) + len(lad) + len(lim) + st.get("scanbyte", 0))
 
 
 def finish(ctx, st, uniq, lad, lim, cs, dist, corpus_texts, nrun, run_timeouts, nshapes, discr, nprogs, ndebug):
@@ -979,7 +1147,8 @@ def finish(ctx, st, uniq, lad, lim, cs, dist, corpus_texts, nrun, run_timeouts, 
     if st["fuel"]:
         ctx.broken.append("POutOfFuel verdicts: %d - contradicts C03_parse_fuel_enough (stale .vo or changed default_fuel?), e.g. %r" % (st["fuel"], st["fuel_samples"][:2]))
     novel = [s for s in st["accepted"] if s not in corpus_texts]
-    total = len(uniq) + len(lad) + len(lim) + len(cs) + st.get("kw", 0) + st.get("attr_inputs", 0) + st.get("boundary_inputs", 0)
+    total = len(uniq) + len(lad) + len(lim) + len(cs) + st.get("kw", 0) + st.get("attr_inputs", 0) + st.get("boundary_inputs", 0) + \
+        st.get("scanbyte", 0)
     # comments of the RULES array vs the kind names (information only: a comment is not code)
     try:
         with open(os.path.join(yvlib.COQ, "gen", "manifest.json")) as fh:
@@ -1000,6 +1169,8 @@ def finish(ctx, st, uniq, lad, lim, cs, dist, corpus_texts, nrun, run_timeouts, 
         "distinct_accepted_noncorpus": len(novel),
         "agree_ok": st["agree_ok"], "agree_err": st["agree_err"], "err_with_recovery_messages": st["recovered"],
         "out_of_fuel": st["fuel"], "not_judged_after_many_failures": st["skipped"], "code_size_dependent": st["codesize"], "attr_order_nondeterministic": st["attr_nondet"],
+        "scanner_position_texts": st.get("scanbyte", 0), "scanner_position_texts_through_model": st.get("scanbyte_modelled", 0),
+        "scanner_position_model_agreements": st.get("scanbyte_agree", 0),
         "texts_by_family": dist, "keyword_probes": st.get("kw", 0), "attribute_inputs": st.get("attr_inputs", 0), "boundary_inputs": st.get("boundary_inputs", 0),
         "duplicate_attribute_error_classes": st.get("dup_attr_agreements", 0), "ladders": len(lad), "limits": len(lim), "code_size_inputs": len(cs),
         "debug_build_texts": ndebug, "run_sample": nrun, "run_timeouts_not_judged": run_timeouts,
@@ -1035,6 +1206,10 @@ def search(ctx):
     language as defined (rules_ref, keyword table): keyword probes, all operator pairs with every value set, then the
     thorough generators"""
     st = new_stats()
+    # directed first: the FULL enumeration of the scanner-position family (a changed slice / position row of
+    # C03_scanner_positions shows up here as a panic or as a debug/release/model disagreement)
+    nsb = scanner_family(ctx, st, False)
+    ctx.notes.append("search: %d scanner-position texts (full enumeration), %d through the model" % (nsb, st.get("scanbyte_modelled", 0)))
     nk = keyword_probes(ctx, st)
     nshapes, discr, nprogs = operator_pairs(ctx, st, VALUE_SETS)
     for v in st["viol"][:5]:
